@@ -33,12 +33,6 @@ func (h GET) Supports(r *http.Request) bool {
 }
 
 func (h GET) Do(w http.ResponseWriter, r *http.Request, exec graphql.GraphExecutor) {
-	query, err := url.ParseQuery(r.URL.RawQuery)
-	if err != nil {
-		w.WriteHeader(http.StatusBadRequest)
-		writeJsonError(w, err.Error())
-		return
-	}
 	contentType := determineResponseContentType(h.ResponseHeaders, r)
 	responseHeaders := mergeHeaders(
 		map[string][]string{
@@ -47,6 +41,13 @@ func (h GET) Do(w http.ResponseWriter, r *http.Request, exec graphql.GraphExecut
 		h.ResponseHeaders,
 	)
 	writeHeaders(w, responseHeaders)
+
+	query, err := url.ParseQuery(r.URL.RawQuery)
+	if err != nil {
+		w.WriteHeader(http.StatusBadRequest)
+		writeJsonError(w, err.Error())
+		return
+	}
 
 	raw := &graphql.RawParams{
 		Query:         query.Get("query"),
